@@ -288,8 +288,13 @@ func runC15(c *ctx) {
 			if cerr != nil {
 				continue
 			}
-			for _, v := range c08Vals {
-				rx = append(rx, []interface{}{re, v, cre.MatchString(v)})
+			seenV := map[string]bool{}
+			for _, v := range append(append([]string{}, c08Vals...), mdValues(md)...) {
+				if seenV[v] {
+					continue
+				}
+				seenV[v] = true
+				rx = append(rx, []interface{}{re, v, cre.MatchString(v)}) // the truth table covers every value the call carries
 			}
 		}
 		c.emit(obj{"op": step, "lsup": lsup, "nsup": nsup, "listener": lj, "named": nj, "pretag": pretag, "matchMethod": matchMethod,
@@ -473,5 +478,14 @@ func allGRoutes(cfgs ...*gCfg) []*gRoute {
 		}
 		out = append(out, c.Thrift...)
 	}
+	return out
+}
+
+func mdValues(md map[string]string) []string {
+	var out []string
+	for _, v := range md {
+		out = append(out, v)
+	}
+	sort.Strings(out)
 	return out
 }
